@@ -1,0 +1,123 @@
+//go:build verif
+
+// Contracts for deductive verification (comment-only; read by /verif/govc, never compiled into the product).
+
+package transitioner
+
+// ---------------------------------------------------------------------------------------------------------
+// C16: the task state reported after a transition is the device's real state
+
+// Ghost model of the device behind the injected DoTransition function.
+//@ ghost var dev string      // the FairMQ state the device is really in
+//@ ghost var lastTE bool     // the last DoTransition call ended in a transport error (no reply)
+//@ ghost var anyTE bool      // some DoTransition call since the transition started ended in a transport error
+//@ ghost var rbGoal string   // FairMQ state a rollback of the multi-step transition in progress aims at (its source state)
+//@ ghost var rbTried string  // state from which a rollback to rbGoal was requested and not accepted, "" if none since the device last moved
+
+// image of a FairMQ state in the O2 state space, and its inverse (both "" where there is no counterpart)
+//@ ghost pure func img(f string) string =
+//@     if f == fairmq.IDLE then "STANDBY" else if f == fairmq.READY then "CONFIGURED" else if f == fairmq.RUNNING then "RUNNING"
+//@     else if f == fairmq.ERROR then "ERROR" else if f == fairmq.EXITING then "DONE" else ""
+//@ ghost pure func fmqOf(s string) string =
+//@     if s == "STANDBY" then fairmq.IDLE else if s == "CONFIGURED" then fairmq.READY else if s == "RUNNING" then fairmq.RUNNING
+//@     else if s == "ERROR" then fairmq.ERROR else if s == "DONE" then fairmq.EXITING else ""
+
+// intermediate FairMQ states from which the multi-step transitions roll back
+//@ ghost pure func stuck(f string) bool = f == fairmq.INITIALIZED || f == fairmq.BOUND || f == fairmq.DEVICE_READY
+
+// representation invariant of the transitioner: the two maps are exactly the documented state correspondence
+//@ ghost pure func wfFMQ(cm *FairMQ) bool =
+//@     cm != nil && cm.stateMap != nil && cm.invStateMap != nil &&
+//@     (forall k string :: (k in cm.stateMap) <==> fmqOf(k) != "") &&
+//@     (forall k string :: (k in cm.stateMap) ==> cm.stateMap[k] == fmqOf(k)) &&
+//@     (forall k string :: (k in cm.invStateMap) <==> img(k) != "") &&
+//@     (forall k string :: (k in cm.invStateMap) ==> cm.invStateMap[k] == img(k))
+
+// Assumed device model (derived from RpcClient.doTransition, which is verified against the reply in executorcmd):
+// a reply carries the state the device is in after the request; without a reply the state is "" and the device did not
+// move; the device only ever stays where it is, goes to ERROR, or - if it really was in the source state the request
+// names - goes to the requested destination; success is reported only for the requested destination.
+//@ funcfield FairMQ.DoTransition(ei EventInfo) (state string, err error)
+//@   modifies dev, lastTE, anyTE, rbTried
+//@   ensures dev != ""
+//@   ensures lastTE == (state == "")
+//@   ensures anyTE == (old(anyTE) || state == "")
+//@   ensures state == "" ==> err != nil && dev == old(dev)
+//@   ensures state != "" ==> state == dev
+//@   ensures err == nil ==> state == ei.Dst && state != ""
+//@   ensures dev == old(dev) || dev == fairmq.ERROR || (old(dev) == ei.Src && dev == ei.Dst)
+//@   ensures rbTried == (if ei.Dst == rbGoal && ei.Src == old(dev) && dev == old(dev) then old(dev) else if dev == old(dev) then old(rbTried) else "")
+
+//@ funcfield Direct.DoTransition(ei EventInfo) (state string, err error)
+//@   modifies dev, lastTE, anyTE, rbTried
+//@   ensures dev != ""
+//@   ensures lastTE == (state == "")
+//@   ensures anyTE == (old(anyTE) || state == "")
+//@   ensures state == "" ==> err != nil && dev == old(dev)
+//@   ensures state != "" ==> state == dev
+//@   ensures err == nil ==> state == ei.Dst && state != ""
+//@   ensures dev == old(dev) || dev == fairmq.ERROR || (old(dev) == ei.Src && dev == ei.Dst)
+//@   ensures rbTried == (if ei.Dst == rbGoal && ei.Src == old(dev) && dev == old(dev) then old(dev) else if dev == old(dev) then old(rbTried) else "")
+
+//@ func (cm *FairMQ) fmqStateForState(stateName string) (f string)
+//@   property C16
+//@   opt strings=uf
+//@   pure
+//@   requires wfFMQ(cm)
+//@   ensures f == fmqOf(stateName)
+
+//@ func (cm *FairMQ) stateForFmqState(fmqStateName string) (s string)
+//@   property C16
+//@   opt strings=uf
+//@   pure
+//@   requires wfFMQ(cm)
+//@   ensures s == img(fmqStateName)
+
+// doConfigure: IDLE -> INITIALIZING DEVICE -> INITIALIZED -> BOUND -> DEVICE READY -> READY with RESET DEVICE rollback
+//@ func (cm *FairMQ) doConfigure(evt string, src string, dst string, args map[string]string) (finalState string, err error)
+//@   property C16
+//@   opt strings=uf
+//@   modifies dev, lastTE, anyTE, rbTried
+//@   requires wfFMQ(cm) && dev != "" && src == "STANDBY" && dst == "CONFIGURED"
+//@   requires rbGoal == fmqOf(src) && rbTried == "" && !anyTE && !stuck(dev)
+//@   ensures !lastTE ==> finalState == img(dev)
+//@   ensures err == nil ==> dev == fmqOf(dst) && finalState == dst
+//@   ensures !anyTE && stuck(dev) ==> rbTried == dev
+//@   ensures dev != ""
+
+// doReset: READY -> DEVICE READY -> IDLE with INIT TASK rollback
+//@ func (cm *FairMQ) doReset(evt string, src string, dst string, args map[string]string) (finalState string, err error)
+//@   property C16
+//@   opt strings=uf
+//@   modifies dev, lastTE, anyTE, rbTried
+//@   requires wfFMQ(cm) && dev != "" && src == "CONFIGURED" && (dst == "STANDBY" || dst == "DONE")
+//@   requires rbGoal == fmqOf(src) && rbTried == "" && !anyTE && !stuck(dev)
+//@   ensures !lastTE ==> finalState == img(dev)
+//@   ensures err == nil ==> dev == fmqOf(dst) && finalState == dst
+//@   ensures !anyTE && dev == fairmq.DEVICE_READY ==> rbTried == dev
+//@   ensures dev != ""
+
+//@ func (cm *Direct) Commit(evt string, src string, dst string, args map[string]string) (finalState string, err error)
+//@   property C16
+//@   opt strings=uf
+//@   modifies dev, lastTE, anyTE, rbTried
+//@   requires cm != nil && dev != ""
+//@   ensures !lastTE ==> finalState == dev
+//@   ensures err == nil ==> dev == dst && finalState == dst
+
+// Commit dispatches on the event. RECOVER / GO_ERROR ("not implemented yet", returns src) and unknown events are outside
+// the contract (precondition), see DESIGN.md.
+//@ func (cm *FairMQ) Commit(evt string, src string, dst string, args map[string]string) (finalState string, err error)
+//@   property C16
+//@   opt strings=uf
+//@   modifies dev, lastTE, anyTE, rbTried
+//@   requires wfFMQ(cm) && dev != "" && rbGoal == fmqOf(src) && rbTried == "" && !anyTE && !stuck(dev)
+//@   requires evt == "START" || evt == "STOP" || evt == "CONFIGURE" || evt == "RESET" || evt == "EXIT"
+//@   requires evt == "CONFIGURE" ==> src == "STANDBY" && dst == "CONFIGURED"
+//@   requires evt == "RESET" ==> src == "CONFIGURED" && dst == "STANDBY"
+//@   requires evt == "EXIT" ==> (src == "CONFIGURED" || src == "STANDBY") && dst == "DONE"
+//@   requires evt == "START" ==> src == "CONFIGURED" && dst == "RUNNING"
+//@   requires evt == "STOP" ==> src == "RUNNING" && dst == "CONFIGURED"
+//@   ensures !lastTE ==> finalState == img(dev)
+//@   ensures err == nil ==> dev == fmqOf(dst) && finalState == dst
+//@   ensures dev != ""
